@@ -61,6 +61,11 @@ fn fault_for(call: Call) -> Option<Effect> {
     if let Some((i, eff)) = hit {
         let pos = st.trace.len();
         st.fired.push((i, pos));
+        if let Effect::Delay(ms) = eff {
+            // a slow call: simulated time passes, nothing else changes
+            st.vclock_ns += ms as u64 * 1_000_000;
+            return None;
+        }
         if let Effect::PartialThenErr(e) = eff {
             st.pending_err[k] = Some(e);
         }
@@ -94,7 +99,7 @@ pub unsafe extern "C" fn open64(p: *const c_char, flags: c_int, mode: mode_t) ->
     if let Some(eff) = fault_for(call) {
         let e = match eff {
             Effect::Errno(e) | Effect::PartialThenErr(e) => e,
-            Effect::Short => libc::EMFILE,
+            Effect::Short | Effect::Delay(_) => libc::EMFILE,
         };
         push(op, name, 0, 0, vec![], -(e as i64), Some(eff));
         set_errno(e);
@@ -146,7 +151,7 @@ pub unsafe extern "C" fn write(fd: c_int, buf: *const c_void, n: size_t) -> ssiz
                 Some(Effect::Short) | Some(Effect::PartialThenErr(_)) => {
                     want = if n > 1 { (n / 2).max(1) } else { n };
                 }
-                None => {}
+                None | Some(Effect::Delay(_)) => {}
             }
             let r = libc::syscall(libc::SYS_write, fd, buf, want) as ssize_t;
             let res = if r >= 0 { r as i64 } else { -(errno() as i64) };
@@ -166,7 +171,7 @@ pub unsafe extern "C" fn fdatasync(fd: c_int) -> c_int {
             if let Some(eff) = fault_for(Call::Fdatasync) {
                 let e = match eff {
                     Effect::Errno(e) | Effect::PartialThenErr(e) => e,
-                    Effect::Short => libc::EIO,
+                    Effect::Short | Effect::Delay(_) => libc::EIO,
                 };
                 push(FsOp::Fdatasync, name, 0, 0, vec![], -(e as i64), Some(eff));
                 set_errno(e);
@@ -187,7 +192,7 @@ pub unsafe extern "C" fn fsync(fd: c_int) -> c_int {
             if let Some(eff) = fault_for(Call::Fsync) {
                 let e = match eff {
                     Effect::Errno(e) | Effect::PartialThenErr(e) => e,
-                    Effect::Short => libc::EIO,
+                    Effect::Short | Effect::Delay(_) => libc::EIO,
                 };
                 push(FsOp::Fsync, name, 0, 0, vec![], -(e as i64), Some(eff));
                 set_errno(e);
@@ -208,7 +213,7 @@ pub unsafe extern "C" fn ftruncate64(fd: c_int, len: off64_t) -> c_int {
             if let Some(eff) = fault_for(Call::Ftruncate) {
                 let e = match eff {
                     Effect::Errno(e) | Effect::PartialThenErr(e) => e,
-                    Effect::Short => libc::EIO,
+                    Effect::Short | Effect::Delay(_) => libc::EIO,
                 };
                 push(FsOp::Ftruncate, name, len as u64, 0, vec![], -(e as i64), Some(eff));
                 set_errno(e);
@@ -236,7 +241,7 @@ pub unsafe extern "C" fn unlink(p: *const c_char) -> c_int {
             if let Some(eff) = fault_for(Call::Unlink) {
                 let e = match eff {
                     Effect::Errno(e) | Effect::PartialThenErr(e) => e,
-                    Effect::Short => libc::EIO,
+                    Effect::Short | Effect::Delay(_) => libc::EIO,
                 };
                 push(FsOp::Unlink, name, 0, 0, vec![], -(e as i64), Some(eff));
                 set_errno(e);
@@ -263,7 +268,7 @@ pub unsafe extern "C" fn pread64(fd: c_int, b: *mut c_void, n: size_t, off: off6
                 return -1;
             }
             Some(Effect::Short) => want = if n > 1 { (n / 2).max(1) } else { n },
-            None => {}
+            None | Some(Effect::Delay(_)) => {}
         }
         return libc::syscall(libc::SYS_pread64, fd, b, want, off) as ssize_t;
     }
@@ -287,7 +292,7 @@ pub unsafe extern "C" fn read(fd: c_int, b: *mut c_void, n: size_t) -> ssize_t {
                 return -1;
             }
             Some(Effect::Short) => want = if n > 1 { (n / 2).max(1) } else { n },
-            None => {}
+            None | Some(Effect::Delay(_)) => {}
         }
         return libc::syscall(libc::SYS_read, fd, b, want) as ssize_t;
     }
@@ -312,17 +317,64 @@ pub unsafe extern "C" fn flock(fd: c_int, op: c_int) -> c_int {
 fn sim_sleep(ns: u64) {
     {
         let mut st = lock();
-        st.vclock_ns += ns;
+        st.vclock_ns += ns.max(1);
+        st.epoch += 1;
     }
     if !sim().blocked("nanosleep") {
+        // nobody else can run: simulated time simply passes. A sleeper that waits for something that
+        // can never happen (e.g. wait_worker_idle with a dead worker) is stopped after a simulated day.
         let mut st = lock();
         st.sleep_stall_streak += 1;
-        if st.sleep_stall_streak > 50_000 {
+        if st.sleep_stall_streak > 2_000_000 || st.vclock_ns > 86_400_000_000_000 * 30 {
             drop(st);
             eprintln!("HARNESS-ERROR: a simulated thread sleeps forever waiting for progress nobody can make (e.g. wait_worker_idle with a dead worker)");
             std::process::exit(2);
         }
     }
+}
+
+/// Simulated threads read the virtual clock (advanced by simulated sleeps, and by 1 us per
+/// reading so that a busy-wait on the clock terminates).
+const VCLOCK_BASE_S: i64 = 1_000_000;
+
+#[no_mangle]
+pub unsafe extern "C" fn clock_gettime(clk: libc::clockid_t, ts: *mut libc::timespec) -> c_int {
+    if in_sim() && !ts.is_null() && matches!(clk, libc::CLOCK_MONOTONIC | libc::CLOCK_REALTIME | libc::CLOCK_BOOTTIME | libc::CLOCK_MONOTONIC_COARSE | libc::CLOCK_REALTIME_COARSE | libc::CLOCK_MONOTONIC_RAW) {
+        let ns = {
+            let mut st = lock();
+            if st.active {
+                st.vclock_ns += 1_000;
+                Some(st.vclock_ns)
+            } else {
+                None
+            }
+        };
+        if let Some(ns) = ns {
+            (*ts).tv_sec = (VCLOCK_BASE_S + (ns / 1_000_000_000) as i64) as libc::time_t;
+            (*ts).tv_nsec = (ns % 1_000_000_000) as _;
+            return 0;
+        }
+    }
+    libc::syscall(libc::SYS_clock_gettime, clk, ts) as c_int
+}
+
+type PthreadJoinFn = unsafe extern "C" fn(libc::pthread_t, *mut *mut c_void) -> c_int;
+
+/// `JoinHandle::join` ends here. A simulated thread joining another simulated thread waits in
+/// simulated time (the scheduler runs the others until the joined one has exited); only then is
+/// the real join called, which returns as soon as the OS thread has finished its teardown.
+#[no_mangle]
+pub unsafe extern "C" fn pthread_join(t: libc::pthread_t, ret: *mut *mut c_void) -> c_int {
+    if in_sim() {
+        crate::core::join_wait_pthread(t);
+    }
+    static REAL: std::sync::OnceLock<usize> = std::sync::OnceLock::new();
+    let f = *REAL.get_or_init(|| libc::dlsym(libc::RTLD_NEXT, b"pthread_join\0".as_ptr() as *const c_char) as usize);
+    if f == 0 {
+        return libc::EINVAL;
+    }
+    let real: PthreadJoinFn = std::mem::transmute(f);
+    real(t, ret)
 }
 
 #[no_mangle]
